@@ -342,6 +342,7 @@ def _run_case(tokens, wspbus, fake_atexit, tshim, var):
     trace = []
     cur = {'call': None, 'lc': False}
     box = {}
+    intent = {}           # (channel, probe) -> priority the next subscribe call of the harness asks for
 
     def state_name():
         st = box['bus'].state
@@ -368,6 +369,7 @@ def _run_case(tokens, wspbus, fake_atexit, tshim, var):
                     f = act.split('~')
                     if f[0] == 's':
                         p = get_probe(f[1], int(f[2]), f[4], [])
+                        intent[(f[1], p)] = int(f[3])
                         bus.subscribe(f[1], p, priority=int(f[3]))
                     elif f[0] == 'u':
                         bus.unsubscribe(f[1], get_probe(f[1], int(f[2]), 'ok', []))
@@ -427,6 +429,13 @@ def _run_case(tokens, wspbus, fake_atexit, tshim, var):
                 trace.append(names.get(id(value), repr(value)))
             object.__setattr__(self, key, value)
 
+        def log(self, *a, **k):
+            box['via_log'] = True       # the next publish('log') is the bus's own, not the application's
+            try:
+                return wspbus.Bus.log(self, *a, **k)
+            finally:
+                box.pop('via_log', None)
+
         def subscribe(self, *a, **k):
             r = wspbus.Bus.subscribe(self, *a, **k)
             channel = a[0] if a else k.get('channel')
@@ -435,7 +444,10 @@ def _run_case(tokens, wspbus, fake_atexit, tshim, var):
             if callback is not None and isinstance(callback, Probe):
                 d = shadow.setdefault(channel, {})
                 new = callback not in d
-                d[callback] = eff_prio(priority, getattr(callback, 'priority', None))
+                # the priority the APPLICATION asked for (documented precedence: argument, else the callable's
+                # `priority` attribute, else 50) -- recorded at the call site, not what the bus passes on internally
+                want = intent.pop((channel, callback), None)
+                d[callback] = want if want is not None else eff_prio(priority, getattr(callback, 'priority', None))
                 for rec in stack:
                     if rec['ch'] == channel:
                         rec['added' if new else 'reprio'].add(callback.lid)
@@ -455,7 +467,9 @@ def _run_case(tokens, wspbus, fake_atexit, tshim, var):
         def publish(self, channel, *a, **k):
             if len(stack) >= DEPTHCAP:
                 raise _Deep()
-            rec = {'ch': channel, 'state': state_name(), 'depth': len(stack),
+            rec = {'id': len(pubs), 'parent': stack[-1]['id'] if stack else None,
+                   'via_log': channel == 'log' and bool(box.pop('via_log', False)),
+                   'ch': channel, 'state': state_name(), 'depth': len(stack),
                    'entry': {p.lid: (pr, p.out, bool(p.acts)) for p, pr in shadow.get(channel, {}).items()},
                    'invoked': [], 'raised': [], 'added': set(), 'removed': set(), 'reprio': set(),
                    'result': None, 'call': cur['call'], 'lc': cur['lc']}
@@ -509,6 +523,7 @@ def _run_case(tokens, wspbus, fake_atexit, tshim, var):
                     del p.priority
             else:
                 p.priority = attr
+            intent[(ch, p)] = eff_prio(arg, attr)
             if deco:
                 rs = [outcome(lambda: (bus.subscribe(ch, priority=arg) if arg is not None
                                        else bus.subscribe(ch))(p))]
@@ -727,18 +742,16 @@ OWN = {'start': ('start', 'STARTING'), 'stop': ('stop', 'STOPPING'), 'exit': ('e
 def oracle(tokens, obs):
     """Return a list of (what, signature) failures of the property on this observation."""
     bad = []
-    log_raisers = set()
-    for t in tokens:
-        f = t.split(':')
-        if f[0] == 'sub' and f[1] == 'log' and f[-2] != 'ok':
-            log_raisers.add(int(f[2]))
-        if f[0] == 'sub' and any(a.startswith('s~log~') and not a.endswith('~ok') for a in f[-1].split('+')):
-            log_raisers.add(-1)
-    invoked_ids = {e[1] for e in obs['journal'] if e[0] == 'log'}
-    logfail = bool(log_raisers & (invoked_ids | {-1}))
+    # F22 exactly as narrow as the finding: `Bus.log()` called BY THE BUS (from publish()'s except-branch of another
+    # channel, or from a lifecycle method) raised ChannelFailures because a log listener raised.  A publish('log')
+    # made by the application is an ordinary publish: all clauses apply to it.
+    buslog_failed = [p for p in obs['pubs'] if p['ch'] == 'log' and p.get('via_log') and p['result'] == 'fail']
+    f22_parents = {p['parent'] for p in buslog_failed if p['parent'] is not None}
+    f22_calls = {p['call'] for p in buslog_failed}
+    cur_sig = {'f22': False}
 
     def sig(s):
-        return 'F22:failing_log_listener' if logfail else s
+        return 'F22:failing_log_listener' if cur_sig['f22'] else s
 
     # anything but the documented exceptions leaving a bus call, or a call that does not come back
     for ci, rs in enumerate(obs['results']):
@@ -756,6 +769,7 @@ def oracle(tokens, obs):
 
     # (a) every subscribed listener exactly once, ascending priority, failures reported collectively
     for p in obs['pubs']:
+        cur_sig['f22'] = p['ch'] != 'log' and p['id'] in f22_parents
         entry = p['entry']
         entry_ids = sorted(entry)
         inv = p['invoked']
@@ -793,6 +807,7 @@ def oracle(tokens, obs):
             if pr != sorted(pr):
                 bad.append(('publish(%s) order not ascending' % p['ch'], sig('priority_order')))
         # (b) start/stop/exit listeners see STARTING/STOPPING/EXITING when the bus method publishes
+        cur_sig['f22'] = p['call'] in f22_calls
         if p['depth'] == 0 and p['call'] is not None and not p['lc']:
             method = tokens[p['call']].split(':')[0]
             if method in ('start', 'stop', 'exit', 'restart') and p['ch'] in OWN:
@@ -804,6 +819,7 @@ def oracle(tokens, obs):
     for ci, tok in enumerate(tokens):
         if ci >= len(obs['results']):
             break
+        cur_sig['f22'] = ci in f22_calls
         method = tok.split(':')[0]
         rs = obs['results'][ci]
         res = rs[0] if rs else 'ret'
@@ -872,7 +888,7 @@ def gen_prio_route(rng, l, prio):
     if prio == 50:
         routes += ['default', 'default']
     r = rng.choice(routes)
-    l['deco'] = rng.random() < 0.15
+    l['deco'] = rng.random() < 0.3
     if r == 'arg':
         l['arg'], l['attr'] = prio, None
     elif r == 'arg+attr':
@@ -890,7 +906,7 @@ def gen_case(rng, big=False):
     listeners = []
     for ch in CHANNELS:
         if ch == 'log':
-            n = rng.choice([0, 0, 1, 2])
+            n = rng.choice([1, 2, 3, 3]) if logfail else rng.choice([0, 0, 1, 2, 3])
         else:
             n = rng.choice([0, 1, 1, 2, 2, 3, 4] if not big else [2, 3, 4, 5, 6])
         for _ in range(n):
@@ -961,7 +977,7 @@ def gen_case(rng, big=False):
     for _ in range(ncalls):
         k = rng.choices(kinds, weights=weights)[0]
         if k == 'pub':
-            toks.append('pub:%s' % rng.choice(['c1', 'c2', 'main', 'graceful', 'c7', 'stop', 'start']))
+            toks.append('pub:%s' % rng.choice(['c1', 'c2', 'main', 'graceful', 'c7', 'stop', 'start', 'log', 'log']))
         elif k == 'unsub':
             if listeners and rng.random() < 0.8:
                 t = rng.choice(listeners)
@@ -1068,6 +1084,44 @@ def enum_reentrant():
                         for pre in ([], ['start']):
                             for post in ([], [c], ['exit']):
                                 yield subs + pre + [c] + post
+
+
+def enum_log():
+    """Exhaustive small scope on the `log` channel published by the application: 1..3 log listeners, every
+    ok/raise pattern, distinct priorities in every order (and one tie), published once or twice; and the same
+    listeners behind a raising listener of another channel (the F22 shape)."""
+    for k in (1, 2, 3):
+        for outs in itertools.product(('ok', 'raise'), repeat=k):
+            for prios in itertools.permutations((10, 50, 90)[:k]):
+                subs = ['sub:log:%d:%d:%s:-' % (i + 1, prios[i], outs[i]) for i in range(k)]
+                yield subs + ['pub:log']
+                yield subs + ['pub:log', 'pub:log']
+                yield subs + ['sub:c1:8:10:raise:-', 'sub:c1:9:50:ok:-', 'pub:c1', 'pub:log']
+            if k > 1 and 'raise' not in outs:
+                yield ['sub:log:%d:50:ok:-' % (i + 1) for i in range(k)] + ['pub:log']
+
+
+FORMS = [('%d', 'n'), ('%d', '77'), ('%d', '5'), ('n', '%d'), ('d%d', 'n'), ('d%d', '77'), ('dn', '%d'),
+         ('dn', 'n'), ('n', 'n')]
+
+
+def enum_priority_forms():
+    """Exhaustive: a listener subscribed through every form the API offers (priority argument positional / by
+    keyword, `priority` attribute only, argument and a different attribute, decorator form with / without argument,
+    nothing at all) with a priority below / between / above two reference listeners (30 and 70), then re-subscribed
+    through every other form; judged by the documented precedence argument > attribute > 50."""
+    refs = ['sub:c1:8:30:n:ok:-', 'sub:c1:9:n:70:ok:-']
+    for lid in (1, 2):              # odd ids pass the argument positionally, even ids by keyword
+        for fa, ft in FORMS:
+            for v in (10, 60, 90, 0):
+                first = 'sub:c1:%d:%s:%s:ok:-' % (lid, fa % v if '%' in fa else fa, ft % v if '%' in ft else ft)
+                yield refs + [first, 'pub:c1']
+                yield [first] + refs + ['pub:c1']
+                if v == 60:
+                    for fa2, ft2 in FORMS:
+                        second = 'sub:c1:%d:%s:%s:ok:-' % (lid, fa2 % 20 if '%' in fa2 else fa2,
+                                                           ft2 % 20 if '%' in ft2 else ft2)
+                        yield refs + [first, 'pub:c1', second, 'pub:c1']
 
 
 # ----------------------------------------------------------------------------------------------
@@ -1177,7 +1231,7 @@ def run(ctx):
         'Bus._do_execv: SystemRestart (2 lines)': 'Jython only (sys.platform == "java")',
     }
     ctx.extra['anchored_functions_traced'] = sorted(set(cov.codes.values())) if cov.ok else 'sys.monitoring unavailable'
-    small = list(enum_quick()) + list(enum_reentrant())
+    small = list(enum_quick()) + list(enum_reentrant()) + list(enum_log()) + list(enum_priority_forms())
     check_cases(ctx, small, procs=16)
     ctx.extra['exhaustive_small_scope_quick'] = len(small)
     if not ctx.quick():
